@@ -4,7 +4,7 @@ from __future__ import annotations
 
 from functools import partial
 
-from . import e1, e1b, e2, e2b, e3, e4, e5, e6, e7, e8, e9, e10
+from . import e1, e1b, e2, e2b, e3, e4, e5, e6, e7, e8, e9, e10, e11
 
 TB_E1 = [
     "the rewriting normaliser of sv/algebra.py (confluence re-checked on all critical triples on every run)",
@@ -26,7 +26,7 @@ diag_solver_real = partial(e7.rule_diagonal_solver, complex_energies=False)  # H
 
 # ideal DSL semantics tied to the code: shared by the algorithm-level properties
 CORE = [e1b.rule_projection_pairs, e1b.rule_scope_flags, e2.rule_product_by_order, e2.rule_adjoint_fill, e2.rule_cauchy_wiring,
-        e4.rule_value_preserving, tv_shipped, e9.rule_runtime_support]
+        e4.rule_value_preserving, tv_shipped, e9.rule_runtime_support, e11.rule_helpers]
 
 PROPS: dict[str, dict] = {}
 
@@ -97,7 +97,8 @@ prop(
 prop(
     "C06", level="other", selftest=["linalg", "block_diagonalization"],
     rules=[e8.rule_implicit_wiring, e6.rule_projector, e6.rule_base_state, e6.rule_projector_call_sites,
-           e7.rule_direct_solver, e7.rule_greens_function, e7.rule_diagonal_solver, e7.rule_kpm_structure, e4.rule_value_preserving],
+           e7.rule_direct_solver, e7.rule_greens_function, e7.rule_diagonal_solver, e7.rule_kpm_structure, e4.rule_value_preserving,
+           e11.rule_helpers],
     explanation=(
         "Only structural necessary conditions are decided (numerical equality of the implicit and explicit paths is "
         "not): the implicit block is Q.H.Q with one and the same oblique projector Q = 1 - R L† on both sides; "
@@ -184,7 +185,7 @@ prop(
 
 prop(
     "C14", level="other", selftest=["block_diagonalization"],
-    rules=[e6.rule_projector_call_sites, e6.rule_subspaces_from_indices, e2b.rule_taylor, e2b.rule_order_preserving_evals, e2b.rule_key_normalisation,
+    rules=[e6.rule_projector_call_sites, e6.rule_subspaces_from_indices, e11.rule_helpers, e2b.rule_taylor, e2b.rule_order_preserving_evals, e2b.rule_key_normalisation,
            e5.rule_total_callbacks, e2.rule_adjoint_fill, e4.rule_value_preserving],
     explanation=(
         "Narrow claim: operator_to_BlockSeries returns L_i† A R_j (projector families, argument order of every "
@@ -197,7 +198,7 @@ prop(
 prop(
     "C16", level="other", selftest=["block_diagonalization", "linalg", "second_quantization"],
     rules=[e7.rule_diagonal_solver, e7.rule_shared_eigenvalue_check, e7.rule_direct_solver, e7.rule_greens_function,
-           e7.rule_solve_scalar, e7.rule_kpm_structure, e6.rule_projector, e4.rule_value_preserving],
+           e7.rule_solve_scalar, e7.rule_kpm_structure, e6.rule_projector, e4.rule_value_preserving, e11.rule_helpers],
     explanation=(
         "Sibling cross-check of the solver implementations against the contract H0_i T - T H0_j = Y: orientation "
         "E_i[row] - E_j[col], positive sign and zero-guard of each of the five branches of the diagonal solver; sign / "
@@ -247,7 +248,7 @@ prop(
 prop(
     "C20", level="other", selftest=["block_diagonalization"],
     rules=[e5.rule_guards, e5.rule_h0_block_diagonal, e5.rule_guard_dominance, e5.rule_symbolic_hermiticity,
-           e5.rule_total_callbacks, e7.rule_shared_eigenvalue_check, diag_solver_real],
+           e5.rule_total_callbacks, e7.rule_shared_eigenvalue_check, diag_solver_real, e11.rule_helpers],
     explanation=(
         "Each rejection the property lists is located as a raise whose path condition has exactly the required truth "
         "table over canonical atoms (robust to De-Morgan / nesting / early-return rewrites) and that precedes the "
